@@ -2,6 +2,8 @@ package interp
 
 import (
 	"go/types"
+	"net/url"
+	"regexp"
 
 	"gosym/sym"
 )
@@ -120,5 +122,76 @@ func init() {
 		}
 		var cell value = meta
 		return &cell
+	}
+}
+
+// ---- regexp and net/url: native on concrete text ----
+
+func init() {
+	externals["regexp.MustCompile"] = func(fr *frame, args []value) value {
+		re := regexp.MustCompile(args[0].(string))
+		c := zero(mustDeref(fr.fn.Signature.Results().At(0).Type()))
+		p := &c
+		fr.i.side[p] = re
+		return p
+	}
+	externals["regexp.Compile"] = func(fr *frame, args []value) value {
+		re, err := regexp.Compile(args[0].(string))
+		if err != nil {
+			return tuple{(*value)(nil), fr.i.makeError(err.Error())}
+		}
+		c := zero(mustDeref(fr.fn.Signature.Results().At(0).Type()))
+		p := &c
+		fr.i.side[p] = re
+		return tuple{p, iface{}}
+	}
+	reOf := func(fr *frame, v value) *regexp.Regexp {
+		p, _ := v.(*value)
+		if p == nil {
+			panic(nilDeref())
+		}
+		re, ok := fr.i.side[p].(*regexp.Regexp)
+		if !ok {
+			panic(abortPath{"regexp object not created by the Compile intrinsic"})
+		}
+		return re
+	}
+	externals["(*regexp.Regexp).Match"] = func(fr *frame, args []value) value {
+		return reOf(fr, args[0]).Match(concreteBytes(args[1].([]value), "regexp input"))
+	}
+	externals["(*regexp.Regexp).MatchString"] = func(fr *frame, args []value) value {
+		s := args[1].(string)
+		if hasSymMarker(s) {
+			panic(abortPath{"regexp on a symbolic string"})
+		}
+		return reOf(fr, args[0]).MatchString(s)
+	}
+	externals["net/url.Parse"] = func(fr *frame, args []value) value {
+		s := args[0].(string)
+		u, err := url.Parse(s)
+		rt := fr.fn.Signature.Results().At(0).Type() // *url.URL
+		if err != nil {
+			return tuple{(*value)(nil), fr.i.makeError(err.Error())}
+		}
+		st := mustDeref(rt).Underlying().(*types.Struct)
+		c := zero(mustDeref(rt)).(structure)
+		for k := 0; k < st.NumFields(); k++ {
+			switch st.Field(k).Name() {
+			case "Scheme":
+				c[k] = u.Scheme
+			case "Host":
+				c[k] = u.Host
+			case "Path":
+				c[k] = u.Path
+			case "Opaque":
+				c[k] = u.Opaque
+			case "RawQuery":
+				c[k] = u.RawQuery
+			case "Fragment":
+				c[k] = u.Fragment
+			}
+		}
+		var cell value = c
+		return tuple{&cell, iface{}}
 	}
 }
